@@ -9,10 +9,12 @@ Open Scope Z_scope.
 Section JEq.
 Variable fin : f64 -> Prop.
 Variable allow_null : bool.
+(* arrays in the data are admitted only together with schemas whose formats sit next to a type list that accepts arrays (see [local_clean]) *)
+Variable allow_arr : bool.
 Variable N : numops.
 Hypothesis Heq_sym : forall a b, fin a -> fin b -> n_eq N a b = n_eq N b a.
 
-Notation jd := (AgreementData.jd fin allow_null).
+Notation jd := (AgreementData.jd fin allow_null allow_arr).
 
 (* depth of an element is below the depth of its container *)
 Lemma fold_max_ge {A} (f : A -> nat) (l : list A) : forall acc x, In x l -> (f x <= fold_left (fun a e => Nat.max a (f e)) l acc)%nat.
@@ -72,7 +74,7 @@ Proof.
   - cbn [json_eq_fuel]. destruct b0, b; reflexivity.
   - cbn [json_eq_fuel]. apply Z.eqb_sym.
   - cbn [json_eq_fuel]. cbn [AgreementData.jd] in Ha, Hb. apply Heq_sym; tauto.
-  - cbn [json_eq_fuel]. apply jd_arr in Ha. apply jd_arr in Hb. revert lb Hb. induction Ha as [|x t Hx Ht IHl]; intros [|y u] Hb; try reflexivity.
+  - cbn [json_eq_fuel]. apply jd_arr in Ha. apply jd_arr in Hb. destruct Ha as [_ Ha]. destruct Hb as [_ Hb]. revert lb Hb. induction Ha as [|x t Hx Ht IHl]; intros [|y u] Hb; try reflexivity.
     inversion Hb; subst. rewrite (IH x y); [|assumption|assumption]. f_equal. apply IHl. assumption.
   - (* objects: equal sizes, distinct keys on both sides *)
     cbn [json_eq_fuel]. apply jd_obj in Ha. apply jd_obj in Hb. destruct Ha as [Ha Hnda]. destruct Hb as [Hb Hndb].
@@ -130,7 +132,7 @@ Proof.
   rewrite H. destruct (existsb (fun w => existsb (deep_eq N w) seen) t), (existsb (fun w => deep_eq N w v) t), (dup2 t); reflexivity.
 Qed.
 
-Theorem unique_items_has_dup l : Forall (AgreementData.jd fin allow_null) l -> unique_items N [] l = has_dup N l.
+Theorem unique_items_has_dup l : Forall (AgreementData.jd fin allow_null allow_arr) l -> unique_items N [] l = has_dup N l.
 Proof.
   intros Hl. rewrite unique_items_dup2.
   assert (E : existsb (fun v => existsb (deep_eq N v) []) l = false).
